@@ -68,6 +68,8 @@ def rq(q):
 
 
 def to_case(o):
+    if o["kind"] == "openprobe":
+        return "COpens %d" % o["opens"]
     return "CRv %s %s %s %s %d" % (rq(o["a"]), rq(o["b"]), coq_bool(o["entered"]), coq_bool(o.get("bdone", False)), o.get("opens", 0))
 
 
@@ -97,6 +99,13 @@ def run(ctx):
         ctx.harness_broken("harness TestVerifC07 failed (rc=%d)" % rc, out)
         return
     rv = [o for o in obs if o["kind"] == "rv"]
+    probes = [o for o in obs if o["kind"] == "openprobe" and o.get("valid")]
+    if len(probes) < 4:
+        ctx.harness_broken("C07 open probe: only %d of 4 Txattrwalk+Tlopen probes could be set up" % len(probes), out)
+    else:
+        _, P0 = evaluate(ctx, "C07_openprobe", probes)
+        for o in P0:
+            ctx.violation("C07:open-twice:%s" % o["key"], "File.Open called %d times on one File (Tlopen on a fid and on the xattr fid walked from it, %s)" % (o["opens"], o["path"]), o)
     hangs = [o for o in obs if o["kind"] == "hang"]
     invalid = [o for o in obs if o["kind"] == "invalid" and "does not fit" not in o.get("why", "") and "cannot be both" not in o.get("why", "")]
     for o in hangs:
